@@ -9,6 +9,7 @@
      5  %record/values%            of the value, each element exported
      6  std.record.to_array        of the value, each element exported
      7  the ALGEBRA's export of the same program (must equal column 0: theorem export_refines)
+     8  WF / !WF: the hypothesis [mwfb] of the theorems, and abs (melab e) = elab e (melab_refines)
    Only parsing and printing happen here. *)
 open Mergemech_model
 
@@ -163,7 +164,8 @@ let () =
                (let d = elab e in
                 match export sat d with
                 | Inl j -> (if wf d then "OK " else "OK!WF ") ^ show_j j
-                | Inr es -> (if wf d then "ERR " else "ERR!WF ") ^ String.concat "|" (List.sort compare (List.map show_errk es)))
+                | Inr es -> (if wf d then "ERR " else "ERR!WF ") ^ String.concat "|" (List.sort compare (List.map show_errk es)));
+               (if mwfb v && abs0 v = elab e then "WF" else "!WF")
              ] in
              print_string (String.concat "\t" cols)
          | Err _ | TypeErr | Panic -> print_string "BAD melab"
